@@ -192,6 +192,29 @@ def handle(run, results, build, what='entries differ from the oracle', signature
                     real = hook(res['cfg'])
                 except Exception as e:
                     real = None
+            if not real and 'of a symbolic value' in res['error']:
+                # the executed code converts an input with float()/int(): the symbolic run cannot go on.  The same configuration is
+                # run on exact rationals at seeded points instead (sampling, stated as such); a mismatch there is a replayed violation,
+                # agreement leaves the configuration undecided (harness error: the solver never saw it)
+                cfg = res['cfg']
+                found = None
+                for k in range(1, 4):
+                    try:
+                        bad, info = generic_replay(build, cfg, run.seed + 10 * k)
+                    except Exception:
+                        continue
+                    if bad:
+                        found = (bad, info)
+                        break
+                if found:
+                    bad, info = found
+                    run.obligations += 1
+                    fam = bad[0][0].split('[')[0]
+                    run.violation('%s/%s/%s' % (res['group'], cfg.get('variant', cfg.get('rel', '-')), fam),
+                                  ('%s: %d ' + what + ' at an exact seeded point, e.g. %s impl=%.6g oracle=%.6g (the symbolic run stopped at a float()/int() conversion of an input in the package code: %s)') % (
+                                      res['group'], len(bad), bad[0][0], bad[0][1], bad[0][2], res['error'].split('\n')[0][:120]),
+                                  {'cfg': cfg, 'inputs': info['values'], 'differing_entries': bad[:10], 'decided_by': 'exact-rational run at a seeded point (no solver verdict for this configuration)'})
+                    continue
             if real:
                 run.obligations += 1
                 cfg = res['cfg']
